@@ -4,6 +4,7 @@ use std::io::{BufRead, BufWriter, Write};
 
 mod util;
 mod lexical;
+mod dump;
 
 fn main() {
     let args: Vec<String> = std::env::args().collect();
@@ -14,6 +15,10 @@ fn main() {
     std::panic::set_hook(Box::new(|_| {}));
     let out = std::io::stdout();
     let mut out = BufWriter::new(out.lock());
+    if args[1] == "--dump" {
+        dump::run(&args[2..], &mut out);
+        return;
+    }
     if args[1] == "--enum" {
         lexical::enum_cmd(&args[2..], &mut out);
         return;
